@@ -15,6 +15,7 @@ package dbsim
 import (
 	"bytes"
 	"fmt"
+	"os"
 	"hash/fnv"
 	"math"
 	"sort"
@@ -370,6 +371,7 @@ type perco struct {
 	foreignHit          map[int]bool
 	commits, rollbacks  int
 	overlapSeen         bool
+	tieSeen             map[string]bool
 }
 
 func (p *perco) violate(domain, class string, sig map[string]string, format string, a ...any) {
@@ -1296,7 +1298,7 @@ func execPerco(t *testing.T, c *sim.Case) *sim.Result {
 		}
 		p := &perco{w: w, res: res, prop: fmt.Sprintf("C%d", c.CfgInt("prop", 17)), nkeys: nkeys,
 			tsSeen: map[uint64]bool{}, planned: map[uint64]map[int]pPlan{}, applied: map[string]bool{},
-			reported: map[string]string{}, prevBad: map[string]bool{}, foreignHit: map[int]bool{}}
+			reported: map[string]string{}, prevBad: map[string]bool{}, foreignHit: map[int]bool{}, tieSeen: map[string]bool{}}
 		if c.Property != "" {
 			p.prop = c.Property
 		}
@@ -1324,7 +1326,11 @@ func execPerco(t *testing.T, c *sim.Case) *sim.Result {
 				return
 			}
 			p.noteOverlap()
+			p.noteTies()
 			p.probe()
+			if dk := os.Getenv("VERIF_COPIES"); dk != "" {
+				fmt.Fprintf(os.Stderr, "step %d %s: default %s | write %s | lock %s\n", i, op.String(), DescribeCopies(w, cfs[0], []byte(dk)), DescribeCopies(w, cfs[2], []byte(dk)), DescribeCopies(w, cfs[1], []byte(dk)))
+			}
 		}
 		res.Nontrivial = p.commits > 0 && (res.Faults["flush"] > 0 || res.Faults["clean_reopen"] > 0)
 		if p.commits > 0 {
